@@ -309,13 +309,48 @@ def gen_net(rng, n_in=None):
     if r < 0.12 and n_in is None:
         return 'adder', None
     n_in = n_in or rng.randint(2, 6)
-    shape = rng.choice(['random', 'diamond', 'chain', 'wide', 'dups', 'unary', 'reconv', 'reconv'])
+    shape = rng.choice(['random', 'diamond', 'chain', 'wide', 'dups', 'unary', 'reconv', 'reconv', 'towers'])
     net = netgen.rand_net(rng, n_in=n_in, n_g=rng.randint(2, 14), shape='random' if shape == 'reconv' else shape, types=SUPPORTED,
                           max_arity=2, n_out=rng.randint(1, 3), const_operands=False, allow_input_outputs=rng.random() < 0.2,
                           allow_repeat_outputs=rng.random() < 0.2, p_repeat_operand=0.03)
     if shape == 'reconv':
         net = add_reconvergence(net, rng)
+    if shape == 'towers':
+        net = add_redundancy_towers(net, rng)
     return shape, net
+
+
+def add_redundancy_towers(net, rng):
+    """Redundancy stacked on redundancy: a signal wrapped again and again in constructs that cancel or absorb
+    (XOR(XOR(s,x),x), AND(s,OR(s,x)), OR(s,AND(s,x)), NXOR(NXOR(s,x),x)), every level being what a minimiser collapses
+    onto the level below - so that one collapse lands on what an earlier collapse has just removed."""
+    g = dict(net.gates)
+    outs = list(net.outputs)
+    labels = list(g)
+    if not labels:
+        return net
+    k = 0
+    for _ in range(rng.randint(1, 2)):
+        s_ = rng.choice(labels)
+        for lvl in range(rng.randint(2, 4)):
+            x = rng.choice(labels)
+            kind = rng.choice(['xor', 'xor', 'and_or', 'or_and', 'nxor'])
+            a_, b_ = 'tw%d_a' % k, 'tw%d_b' % k
+            k += 1
+            if kind == 'xor':
+                g[a_] = ('XOR', (s_, x)); g[b_] = ('XOR', (a_, x))
+            elif kind == 'nxor':
+                g[a_] = ('NXOR', (s_, x)); g[b_] = ('NXOR', (a_, x))
+            elif kind == 'and_or':
+                g[a_] = ('OR', (s_, x)); g[b_] = ('AND', (s_, a_))
+            else:
+                g[a_] = ('AND', (s_, x)); g[b_] = ('OR', (s_, a_))
+            labels += [a_, b_]
+            s_ = b_
+            if rng.random() < 0.3:
+                outs.append(b_)
+        outs.append(s_)
+    return refsem.Net(list(net.inputs), outs, g)
 
 
 def add_reconvergence(net, rng):
